@@ -194,11 +194,42 @@ def oracle(case, ob):
     return None
 
 
+F18 = "F18-eager-prioritylock-task-identity"
+
+
+def signature(stream, case, msg):
+    """Known finding F18: PriorityLock.acquire() does its bookkeeping (waiter entry, _waiting_on, and the
+    ownership recorded by _take_lock after the wait) for the task that was current when acquire() was ENTERED.
+    A coroutine started by eager() that blocks in acquire() during its synchronous prefix entered it in the
+    parent task and is resumed in its continuation task: the parent is recorded as owner and the coroutine's
+    own release() fails its assertion.  A failure carries this signature iff the case contains a coroutine
+    started with eager() whose body acquires a PriorityLock; every other failure is reported as a violation."""
+    if "prio" not in (case.get("locks") or []):
+        return None
+
+    def acquires_prio(s):
+        if not isinstance(s, list) or not s:
+            return False
+        if s[0] == "do" and isinstance(s[1], list) and s[1][:1] == ["acquire"] \
+                and s[1][1] < len(case["locks"]) and case["locks"][s[1][1]] == "prio":
+            return True
+        return any(acquires_prio(x) for x in s if isinstance(x, list))
+
+    def eager_with_lock(s):
+        if not isinstance(s, list) or not s:
+            return False
+        if s[0] == "spawn" and isinstance(s[1], list) and s[1][:1] == ["eager"] and acquires_prio(s[2]):
+            return True
+        return any(eager_with_lock(x) for x in s if isinstance(x, list))
+    return F18 if any(eager_with_lock(a) for a in case["acts"]) else None
+
+
 PROP = Prop(
     pid="C01",
     props_v="theories/Props/C01.v",
     theory_files=["theories/Sched/Model.v", "theories/Sched/Corr.v", "theories/Sched/EagerProofs.v"],
     streams=[make_stream("eager", gen, oracle)],
+    signature=signature,
     rule="random programs: 1..2 parent tasks each starting 1..3 coroutines with eager() and joining them later; "
          "bodies over {await pending/finished shared future, sleep(0), log, try/except CancelledError/finally, return, "
          "raise Exception/BaseException subclasses}; several eager coroutines awaiting the same future; the environment "
